@@ -86,7 +86,7 @@ def cases(ctx):
             cols, exp = scan_text(text)
             yield {"kind": "corpus", "name": name, "text": text, "columns": cols,
                    "expected": [[p, b.numerator, b.denominator, c, t, k] for p, b, c, t, k in exp]}
-    n = ctx.split(2500 if ctx.tier == "quick" else 16 * 40000)
+    n = ctx.split(2500 if ctx.tier == "quick" else 16 * 25000)
     for i in range(n):
         cells = G.gen_cells(rng)
         if i % 50 == 0:
